@@ -140,3 +140,35 @@ def validate_api_trace(theory, sig, stages, module_path, trace_path, name, maxel
     mod = "MC_" + theory
     write_mc(d, mod, "ApiTrace", constants(sig, stages, module_path), API_TRACE_CFG.format(maxels=maxels).splitlines())
     return vlib.validate_trace(mod, trace_path, name=name + "-tlc", specdir=d, timeout=timeout)
+
+
+EVAL_CFG = """SPECIFICATION {spec}
+CONSTANTS
+  Types <- MTypes
+  Arity <- MArity
+  Funcs <- MFuncs
+  Stages <- MStages
+  ChaseMaxEls = {chasemax}
+  MaxEls = {maxels}
+  MaxId = {maxid}
+  MaxAsserts = {maxasserts}
+  KeepPending = {keep}
+INVARIANTS {invariants}
+{properties}
+CONSTRAINT Bound
+CHECK_DEADLOCK FALSE"""
+
+
+def eval_model_check(theory, sig, stages, module_path, name, maxels=2, maxid=3, maxasserts=2, keep=True, chasemax=8,
+                     liveness=False, workers=8, timeout=3000, allow_violation=False):
+    """TLC on EqlogEval instantiated with one corpus theory (design-level refinement check)."""
+    d = vlib.workdir(name)
+    mod = "MCEval_" + theory
+    cons = constants(sig, stages, module_path)
+    cons = {k: v for k, v in cons.items() if k in ("MTypes", "MArity", "MFuncs", "MStages")}
+    props = "PROPERTY NoAllocation" + (" Terminates" if liveness else "")
+    cfg = EVAL_CFG.format(spec="FairSpec" if liveness else "Spec", chasemax=chasemax, maxels=maxels, maxid=maxid,
+                          maxasserts=maxasserts, keep="TRUE" if keep else "FALSE",
+                          invariants="RefinesApi SoundAtObs RootsOnly TypeSetsExact Disjoint", properties=props)
+    write_mc(d, mod, "EqlogEval", cons, cfg.splitlines())
+    return vlib.tlc(mod, name=name + "-tlc", workers=workers, specdir=d, timeout=timeout, allow_violation=allow_violation)
